@@ -79,7 +79,7 @@ PROPS = {
                     "url.ResolveReference as an oracle table: every id of the world x every string in a reference position, listed where the result is not the reference itself (model parameter `World.resolve`)",
                     "goroutine fan-out in the constructors is an order-preserving map"],
         "assumptions": ["FetchURL semantics are those of the jtp model (C03), composed into the world by the driver"],
-        "lean_modules": ["Props.Gen02", "Props.GenT02", "Props.Gen02n", "Props.GenT02n"],
+        "lean_modules": ["Props.Gen02", "Props.GenT02", "Props.Gen02n", "Props.GenT02n", "Props.Gen02p", "Props.GenT02p"],
         "shrink_budget": 3,
     },
     "C06": {
@@ -156,7 +156,7 @@ PROPS = {
         "trusted": ["as C02", "extract/go2lean14.go and Model/GoPub.lean (translation of the listing filters)",
                     "extract/go2lean22.go and Model/GoNewitem.lean (translation of the constructors of the items)"],
         "assumptions": [],
-        "lean_modules": ["Props.Gen02", "Props.GenT02", "Props.Gen09", "Props.GenT09", "Props.Gen02n", "Props.GenT02n"],
+        "lean_modules": ["Props.Gen02", "Props.GenT02", "Props.Gen09", "Props.GenT09", "Props.Gen02n", "Props.GenT02n", "Props.Gen02p", "Props.GenT02p"],
         "shrink_budget": 3,
     },
     "C03": {
@@ -412,7 +412,7 @@ MANIFEST_TEXT = {
         "technique": "Lean 4 proof (cell-level refinement of the ANSI layer) + differential correspondence with a terminal state machine",
     },
     "C02": {
-        "text": "Lean theorems over an arbitrary world (fetch function): FetchUnknown returns an object with an id only if that object was served by the id's host (directly, or re-fetched, or embedded in a document from it), and the constructors only ever pass an enclosing object's own validated id as source, so every item of a built tree has provenance at its id's host; a foreign embedded object is re-fetched or rejected as forged. Tied to client.go by translation (client.FetchUnknown is translated to Lean on every run and proved equal to the model's fetchUnknown for every world, input and source, nil dereferences excluded: Props/Gen02.lean; the provenance and forged-identifier theorems restated on the translated function: Props/GenT02.lean), to pub by translation (the constructors NewPost, NewActor, NewActivity, New, NewTangible, their FromObject forms and the getters they call are translated on every run - extract/go2lean22.go -> Generated/GoNewitem.lean - and proved to return the model's verdict on every world and object without panic: Props/Gen02n.lean; new_provenance and forged_rejected restated on the translated constructors: Props/GenT02n.lean) and to client.go/pub by differential correspondence on whole item trees over multi-host TLS worlds whose every body is stamped with the serving host; the stamp-vs-id predicate is evaluated on every implementation output.",
+        "text": "Lean theorems over an arbitrary world (fetch function): FetchUnknown returns an object with an id only if that object was served by the id's host (directly, or re-fetched, or embedded in a document from it), and the constructors only ever pass an enclosing object's own validated id as source, so every item of a built tree has provenance at its id's host; a foreign embedded object is re-fetched or rejected as forged. Tied to client.go by translation (client.FetchUnknown is translated to Lean on every run and proved equal to the model's fetchUnknown for every world, input and source, nil dereferences excluded: Props/Gen02.lean; the provenance and forged-identifier theorems restated on the translated function: Props/GenT02.lean), to pub by translation (the constructors NewPost, NewActor, NewActivity, New, NewTangible, their FromObject forms and the getters they call are translated on every run - extract/go2lean22.go -> Generated/GoNewitem.lean - and proved to return the model's verdict on every world and object without panic: Props/Gen02n.lean; new_provenance and forged_rejected restated on the translated constructors: Props/GenT02n.lean; the navigation methods Parents, Children, the identifiers, Creators, Recipients, Actor, Target, Timestamp and FetchUserInput are translated too - extract/go2lean26.go -> Generated/GoNavigate.lean - and proved equal to the model's parents, children, identifiers and user-input classification on every world, post and quantity: Props/Gen02p.lean; every parent listed was served by the host in its id: Props/GenT02p.lean parents_provenance, new_then_parents) and to client.go/pub by differential correspondence on whole item trees over multi-host TLS worlds whose every body is stamped with the serving host; the stamp-vs-id predicate is evaluated on every implementation output.",
         "design_ref": "DESIGN.md §5 C02",
         "note": "Trusted: Lean kernel; correspondence check (testing); net/url host parsing as a parameter; TLS.",
         "technique": "Lean 4 proof (provenance invariant through FetchUnknown and the constructors) + differential correspondence over multi-host simulator worlds",
@@ -436,7 +436,7 @@ MANIFEST_TEXT = {
         "technique": "Lean 4 proof (interleaving model, invariant over all reachable states) over facts regenerated from the source by a translator + race-detector stress as validation",
     },
     "C09": {
-        "text": "Lean theorems: an outbox element is delivered as an activity iff construction succeeded, the owner has an id and the activity's resolved actor id equals it; a reply element is delivered as a post iff its resolved inReplyTo id equals the post's id; a post is built only if every resolved author shares its host; listings keep one entry per element in order, failures in place. The FetchUnknown that resolves every actor, reply target and author is tied to client.go by translation (Props/Gen02.lean, Props/GenT02.lean). Tied to pub twice: the filters themselves - the outbox closure of NewActorFromObject, constructComment of NewPostFromObject, the forged-creators loop, getActors (goroutine fan-out in index order), getPostOrActor, New, NewTangible, the three identifier accessors and the type test at the head of the four constructors - are translated to Lean on every run (extract/go2lean14.go -> Generated/GoListing.lean; the item constructors and FetchUnknown are parameters) and proved equal to the model's for every world and entry, without panic (Props/Gen09.lean), and the theorems are restated about the code as translated (Props/GenT09.lean); the constructors themselves, with the translated FetchUnknown inside, are translated too (extract/go2lean22.go -> Generated/GoNewitem.lean) and proved to return the model's verdict - a post is refused exactly when a loaded author fails the host comparison: Props/Gen02n.lean forged_iff, Props/GenT02n.lean post_authors_same_host; and by differential correspondence on listings over multi-host worlds with impostors; genuineness predicates are evaluated on every implementation output.",
+        "text": "Lean theorems: an outbox element is delivered as an activity iff construction succeeded, the owner has an id and the activity's resolved actor id equals it; a reply element is delivered as a post iff its resolved inReplyTo id equals the post's id; a post is built only if every resolved author shares its host; listings keep one entry per element in order, failures in place. The FetchUnknown that resolves every actor, reply target and author is tied to client.go by translation (Props/Gen02.lean, Props/GenT02.lean). Tied to pub twice: the filters themselves - the outbox closure of NewActorFromObject, constructComment of NewPostFromObject, the forged-creators loop, getActors (goroutine fan-out in index order), getPostOrActor, New, NewTangible, the three identifier accessors and the type test at the head of the four constructors - are translated to Lean on every run (extract/go2lean14.go -> Generated/GoListing.lean; the item constructors and FetchUnknown are parameters) and proved equal to the model's for every world and entry, without panic (Props/Gen09.lean), and the theorems are restated about the code as translated (Props/GenT09.lean); the constructors themselves, with the translated FetchUnknown inside, are translated too (extract/go2lean22.go -> Generated/GoNewitem.lean) and proved to return the model's verdict - a post is refused exactly when a loaded author fails the host comparison: Props/Gen02n.lean forged_iff, Props/GenT02n.lean post_authors_same_host; Post.Parents and Activity.Parents as translated (extract/go2lean26.go -> Generated/GoNavigate.lean) are the model's chain of inReplyTo with at most quantity entries (Props/Gen02p.lean post_parents_eq, Props/GenT02p.lean parents_bounded, first_parent_is_reply_target); and by differential correspondence on listings over multi-host worlds with impostors; genuineness predicates are evaluated on every implementation output.",
         "design_ref": "DESIGN.md §5 C09",
         "note": "Trusted: as C02; the translator extract/go2lean14.go and its semantics library (Model/GoPub.lean: errors as what errors.Is sees of them, the fan-out over disjoint cells run in index order; Model/GoSlices.lean: nil receivers panic).",
         "technique": "Lean 4 proof (case analysis of the listing filters, positions via the paging theorems; equivalence of the translated Go filters with the model) + differential correspondence",
